@@ -91,6 +91,17 @@ def fit_variants(c):
     for j in reversed(range(len(Xs))):
         n.partial_fit(Xs[j], Ys[j], warmup=w)
     out["partial_each_reversed"] = raw(n.fit())
+    # some sequences by partial fits, the rest handed to the closing fit(X, Y) - on a fresh node and on a node that has
+    # completed a training on other data before (its finished session must not matter, its open one must count)
+    if len(Xs) >= 2:
+        k = r.randint(1, len(Xs) - 1)
+        for label, pre in (("partial_then_fit_with_data", False), ("refit_partial_then_fit_with_data", True)):
+            n = node()
+            if pre:
+                n.fit([x[::-1] * 0.5 + 0.25 for x in Xs[:1]], [y[::-1] * 2.0 for y in Ys[:1]], warmup=min(w, len(Xs[0]) - 1))
+            for j in range(k):
+                n.partial_fit(Xs[j], Ys[j], warmup=w)
+            out[label] = raw(n.fit(Xs[k:] if len(Xs) - k > 1 else Xs[k], Ys[k:] if len(Xs) - k > 1 else Ys[k], warmup=w))
     # a fit that fails on a malformed later sequence, then the same node is refitted: nothing of the
     # failed attempt may be counted
     if len(Xs) >= 2:
@@ -255,7 +266,8 @@ def gen_esn(g, heavy):
     return {"kind": "esn", "units": g.randint(5, 9), "K": K, "lens": [g.randint(8, 20) for _ in range(K)],
             "workers": g.choice([2, 3, -1, -2, -3, 1]), "backend": g.choice(backends), "feedback": g.chance(0.3),
             "noise": g.choice([0.0, 0.0, 0.05]),
-            "warmup": g.choice([0, 2, 3]), "seed": g.randint(0, 10 ** 6), "dseed": g.randint(0, 10 ** 6)}
+            "warmup": g.choice([0, 2, 3]), "seed": g.randint(0, 10 ** 6), "dseed": g.randint(0, 10 ** 6),
+            "failed_first": g.chance(0.3)}
 
 
 def esn_data(c):
@@ -265,21 +277,42 @@ def esn_data(c):
     return Xs, Ys
 
 
+def guarded_tanh(x):
+    """(module level: the multiprocessing back end pickles the node)"""
+    # (far beyond anything a legitimate pre-activation reaches, also with the blown-up recurrent matrices of finding K6)
+    if np.any(np.abs(x) > 1e12):
+        raise FloatingPointError("input out of range")
+    return np.tanh(x)
+
+
 def run_esn(c):
     from reservoirpy.nodes import ESN
     Xs, Ys = esn_data(c)
+
+    akw = {"activation": guarded_tanh} if c.get("failed_first") else {}
 
     def mk(workers, backend):
         # (with noise: every sequence is run on its own copy of the seeded ESN, so the draws of a sequence do not depend
         # on which sequences were run before it, by which worker)
         return ESN(units=c["units"], sr=0.9, lr=0.5, ridge=1e-3, seed=c["seed"], feedback=c["feedback"], workers=workers, backend=backend,
-                   noise_rc=c.get("noise", 0.0), noise_in=c.get("noise", 0.0))
+                   noise_rc=c.get("noise", 0.0), noise_in=c.get("noise", 0.0), **akw)
     ref = mk(1, "sequential")
     ref.fit(Xs, Ys, warmup=c["warmup"])
     Wref = np.vstack([ref.readout.bias, ref.readout.Wout])
     out_ref = ref.run(Xs)
+    e = mk(c["workers"], c["backend"])
+    if True:
+        if c.get("failed_first"):
+            # an earlier fit of this object that failed part-way (a node raised while a later sequence ran): the sums of the
+            # sequences accumulated before the failure must not be counted by the training that follows
+            Xf = [x.copy() for x in Xs[:3]]
+            Xf[-1][min(c["warmup"] + 1, len(Xf[-1]) - 1), :] = 1e15
+            try:
+                e.fit(Xf, [y * 0.5 for y in Ys[:3]], warmup=c["warmup"])
+            except BaseException as ex:  # noqa
+                if isinstance(ex, (KeyboardInterrupt, SystemExit)):
+                    raise
     with Trace() as tr:
-        e = mk(c["workers"], c["backend"])
         e.fit(Xs, Ys, warmup=c["warmup"])
         ev = tr.events()
     W = np.vstack([e.readout.bias, e.readout.Wout])
